@@ -37,7 +37,7 @@ func init() {
 		Rule: "case = one mapping of the C03 grid (incl. non-default offsets) plus a second one: binary Encode->Decode, ToProto->Marshal->Unmarshal->FromProto and EncodeProto->Unmarshal->FromProto must give mappings that are Equals both ways and agree bitwise on Index (300 probes), Value, LowerBound, RelativeAccuracy, Min/MaxIndexableValue; " +
 			"mapping from alpha Equals mapping from its (gamma, offset); Equals reflexive and symmetric on the pair; different kinds never equal; same kind with alpha >= 0.1% apart (or offsets apart) never equal. Non-trivial = non-default offset or pair of same kind with close parameters; distinct = hash of both mappings.",
 		Cases:     core.Scale(120000, 3000000),
-		Mandatory: []string{"oracle.binary_roundtrips", "oracle.proto_roundtrips", "oracle.stream_proto_roundtrips", "oracle.inequalities.kind", "oracle.inequalities.alpha", "oracle.inequalities.offset", "oracle.probe_agreements", "oracle.accuracy_vs_base_and_offset", "oracle.near_twin_pairs", "oracle.near_twin_roundtrips", "near_twins.equal_within_tolerance", "near_twins.zero_offset_vs_tiny_offset"},
+		Mandatory: []string{"oracle.binary_roundtrips", "oracle.proto_roundtrips", "oracle.stream_proto_roundtrips", "oracle.inequalities.kind", "oracle.inequalities.alpha", "oracle.inequalities.offset", "oracle.probe_agreements", "oracle.accuracy_vs_base_and_offset", "oracle.near_twin_pairs", "oracle.message_is_a_value", "oracle.second_mapping_roundtrips", "second_mapping.same_base_and_offset_other_kind", "oracle.near_twin_roundtrips", "near_twins.equal_within_tolerance", "near_twins.zero_offset_vs_tiny_offset"},
 		Run:       runC19,
 	})
 	core.Register(&core.Prop{
@@ -392,6 +392,29 @@ func runC19(c *core.Ctx) {
 		}
 		c.Count("oracle.proto_roundtrips", 1)
 		agree(c, "proto", a, w, r)
+		// a message is a value: whatever its receiver does with it (edit, recycle by unmarshalling something else
+		// into it), the mapping keeps describing itself
+		msg := a.M.ToProto()
+		msg.Gamma += 1
+		msg.IndexOffset += 10
+		msg.Interpolation = (msg.Interpolation + 1) % 3
+		if r.Bool() {
+			other := gen.RandMap(r, false)
+			if rawOther, err := proto.Marshal(other.M.ToProto()); err == nil {
+				proto.Unmarshal(rawOther, msg)
+			}
+		}
+		again, err := mapping.FromProto(a.M.ToProto())
+		c.Count("oracle.message_is_a_value", 1)
+		if err != nil || again == nil {
+			c.Failf("proto.message_not_a_value", "FromProto(ToProto()) after an earlier message was edited: %v", err)
+			return
+		}
+		if w2 := wrapDecoded(again); w2 == nil {
+			c.Failf("proto.kind", "FromProto returned %T", again)
+		} else {
+			agree(c, "proto (after an earlier message was edited)", a, w2, r)
+		}
 	})
 	// streaming protobuf form
 	c.Guard("stream_proto", func() {
@@ -601,6 +624,36 @@ func runC19(c *core.Ctx) {
 	}
 	c.SigS(b.Desc)
 	c.Logf("mapping B %s (relation %s)", b.Desc, relation)
+	// B is read back too, in the same process that read A (and its near twins) back before: whatever a decoder
+	// remembers of earlier mappings - same base and offset under another kind, nearly the same base - B comes
+	// back as itself
+	c.Guard("binary B", func() {
+		var bb []byte
+		b.M.Encode(&bb)
+		flag, err := enc.DecodeFlag(&bb)
+		if err != nil {
+			c.Failf("binary.flag", "DecodeFlag: %v", err)
+			return
+		}
+		dm, err := mapping.Decode(&bb, flag)
+		if err != nil || dm == nil {
+			c.Failf("binary.decode", "mapping.Decode of the encoding of %s: %v", b.Desc, err)
+			return
+		}
+		w := wrapDecoded(dm)
+		if w == nil {
+			c.Failf("binary.kind", "decoded mapping has an unexpected type %T", dm)
+			return
+		}
+		c.Count("oracle.second_mapping_roundtrips", 1)
+		if relation == "kind" && b.Gamma == a.Gamma && b.Offset == a.Offset {
+			c.Count("second_mapping.same_base_and_offset_other_kind", 1)
+		}
+		agree(c, "binary (second mapping of the case)", b, w, r)
+	})
+	if c.Failed() {
+		return
+	}
 	ab, ba := a.M.Equals(b.M), b.M.Equals(a.M)
 	if ab != ba {
 		c.Failf("equals.symmetric", "Equals is not symmetric on %s / %s: %v vs %v", a.Desc, b.Desc, ab, ba)
